@@ -36,8 +36,11 @@ macro_rules! to_pow2_shape {
 }
 macro_rules! from_pow2_shape {
     ($name:ident, $n:expr, $w:expr, $words:expr) => {
+        from_pow2_shape!($name, $n, $w, $words, 40);
+    };
+    ($name:ident, $n:expr, $w:expr, $words:expr, $unw:expr) => {
         #[kani::proof]
-        #[kani::unwind(40)]
+        #[kani::unwind($unw)]
         #[kani::stub(alloc::vec::Vec::with_capacity, vc::vec_with_capacity_ignored)]
         #[kani::stub(alloc::vec::Vec::shrink_to_fit, vc::noop_shrink)]
         fn $name() {
@@ -129,6 +132,11 @@ from_pow2_shape!(c06_q_from_pow2_n9_w8, 9, 8, 2);
 from_pow2_shape!(c06_q_from_pow2_n17_w4, 17, 4, 2);
 from_pow2_shape!(c06_q_from_pow2_n13_w5, 13, 5, 2);
 from_pow2_shape!(c06_q_from_pow2_n22_w3, 22, 3, 2);
+// a radix digit ENDS exactly on a 64-bit word boundary after 64 / gcd(w, 64) digits (32 for w = 6, 64 for w = 3, 5, 7): one digit more than that
+from_pow2_shape!(c06_q_from_pow2_n33_w6, 33, 6, 4);
+from_pow2_shape!(c06_q_from_pow2_n65_w3, 65, 3, 4, 70);
+from_pow2_shape!(c06_t_from_pow2_n65_w5, 65, 5, 6, 70);
+from_pow2_shape!(c06_t_from_pow2_n65_w7, 65, 7, 8, 70);
 from_pow2_shape!(c06_t_from_pow2_n24_w6, 24, 6, 3);
 from_pow2_shape!(c06_t_from_pow2_n19_w7, 19, 7, 3);
 from_pow2_shape!(c06_t_from_pow2_n33_w2, 33, 2, 2);
@@ -139,3 +147,181 @@ digits_be_shape!(c06_q_digits_be_n3_r10, 3, 10);
 digits_be_shape!(c06_q_digits_be_n5_r36, 5, 36);
 digits_be_shape!(c06_q_digits_be_n2_r255, 2, 255);
 digits_be_shape!(c06_t_digits_be_n7_r3, 7, 3);
+
+// multi-chunk Horner input (non-power-of-two radix): a head chunk of 1 digit (zero included) followed by TWO full chunks, so the
+// accumulator is multiplied by the chunk base twice and grows to two or three words. Everything real (mac_with_carry by the constant
+// base, add2); oracle: chunk-level Horner in a 4-word window.
+fn horner_step(acc: &mut [u64; 4], radix: u64, d: u64) {
+    let mut carry: u128 = d as u128;
+    let mut i = 0;
+    while i < 4 {
+        let t = (acc[i] as u128) * (radix as u128) + carry;
+        acc[i] = t as u64;
+        carry = t >> 64;
+        i += 1;
+    }
+}
+macro_rules! digits_be_multi_shape {
+    ($name:ident, $n:expr, $radix:expr, $power:expr, $unw:expr, $sparse:expr, $head:expr, $mid:expr) => {
+        #[kani::proof]
+        #[kani::unwind($unw)]
+        #[kani::stub(alloc::vec::Vec::with_capacity, vc::vec_with_capacity_ignored)]
+        #[kani::stub(alloc::vec::Vec::shrink_to_fit, vc::noop_shrink)]
+        #[kani::stub(core::arch::x86_64::_addcarry_u64, vc::stub_addcarry)]
+        #[kani::stub(crate::biguint::addition::schoolbook_add_assign_x86_64, vc::model_add)]
+        fn $name() {
+            // $n = 1 + 2 * $power digits: value = (d[0] * B + c1) * B + c2 with B = radix^power and c1, c2 the one-word values of the
+            // two full chunks (single-chunk values are decided by c06_*_digits_be_n*; B by c06_q_tables_*). A digit-by-digit oracle
+            // makes the query a multiplier-equivalence problem that did not finish in 240 s.
+            let d: [u8; $n] = kani::any();
+            let base: u64 = ($radix as u64).pow($power);
+            let mut c = [0u64; 2];
+            let mut i = 0;
+            while i < $n {
+                kani::assume((d[i] as u32) < $radix);
+                // pinned variant: the head digit and the first full chunk are concrete (head = $head, chunk = 0...0 $mid), so every
+                // data-dependent push has a concrete outcome; the last chunk is arbitrary. THOROUGH TIER ONLY: even the pinned query took
+                // 1447 s (2.3 M variables); the fully symbolic one did not finish in 900 s (the accumulator length depends on the data).
+                kani::assume(!$sparse || i > $power || d[i] == (if i == 0 { $head } else if i == $power { $mid } else { 0 }));
+                if i > 0 {
+                    let k = (i - 1) / $power;
+                    c[k] = c[k] * $radix + d[i] as u64;
+                }
+                i += 1;
+            }
+            let mut e = [d[0] as u64, 0, 0, 0];
+            horner_step(&mut e, base, c[0]);
+            horner_step(&mut e, base, c[1]);
+            kani::cover!(e[1] != 0, "reach: a value above one word");
+            let r = from_radix_digits_be(&d, $radix);
+            kani::assert(vc::is_canonical(&r), "VERIF from_radix_digits_be (multi-chunk) result not canonical");
+            kani::assert(vc::eq_window(vc::digits(&r), &e), "VERIF from_radix_digits_be (multi-chunk) value");
+        }
+    };
+}
+digits_be_multi_shape!(c06_t_digits_be_multi_n17_r255_h0, 17, 255, 8, 20, true, 0, 2);
+digits_be_multi_shape!(c06_t_digits_be_multi_n17_r255_h3, 17, 255, 8, 20, true, 3, 200);
+digits_be_multi_shape!(c06_t_digits_be_multi_n39_r10_h0, 39, 10, 19, 42, true, 0, 7);
+digits_be_multi_shape!(c06_t_digits_be_multi_n39_r10_h9, 39, 10, 19, 42, true, 9, 0);
+
+
+// TEXT LAYER of BigUint::from_str_radix: sign stripping, the underscore rules, digit mapping and the choice of back end, for EVERY
+// ASCII string of the stated length. The three back ends are replaced by recorders (their values are decided by the digit-vector
+// harnesses above), so the query is about which strings are accepted and which digit vector reaches which back end.
+static mut T_KIND: u8 = 0;
+static mut T_N: usize = 0;
+static mut T_V: [u8; 4] = [0; 4];
+static mut T_ARG: u32 = 0;
+fn rec_common(kind: u8, v: &[u8], arg: u32) -> BigUint {
+    unsafe {
+        T_KIND = kind;
+        T_N = v.len();
+        let mut i = 0;
+        while i < 4 {
+            T_V[i] = if i < v.len() { v[i] } else { 0 };
+            i += 1;
+        }
+        T_ARG = arg;
+    }
+    BigUint::ZERO
+}
+fn rec_bitwise(v: &[u8], bits: u8) -> BigUint { rec_common(1, v, bits as u32) }
+fn rec_inexact(v: &[u8], bits: u8) -> BigUint { rec_common(2, v, bits as u32) }
+fn rec_digits_be(v: &[u8], radix: u32) -> BigUint { rec_common(3, v, radix) }
+fn text_digit(b: u8) -> u8 {
+    if b >= b'0' && b <= b'9' {
+        b - b'0'
+    } else if b >= b'a' && b <= b'z' {
+        b - b'a' + 10
+    } else if b >= b'A' && b <= b'Z' {
+        b - b'A' + 10
+    } else {
+        255
+    }
+}
+macro_rules! text_layer_shape {
+    ($name:ident, $n:expr, $radix:expr) => {
+        #[kani::proof]
+        #[kani::unwind(8)]
+        #[kani::stub(alloc::vec::Vec::with_capacity, vc::vec_with_capacity_ignored)]
+        #[kani::stub(alloc::vec::Vec::shrink_to_fit, vc::noop_shrink)]
+        #[kani::stub(from_bitwise_digits_le, rec_bitwise)]
+        #[kani::stub(from_inexact_bitwise_digits_le, rec_inexact)]
+        #[kani::stub(from_radix_digits_be, rec_digits_be)]
+        #[kani::stub(crate::biguint::verif_common::symbolic, crate::biguint::verif_common::yes)]
+        fn $name() {
+            let b: [u8; $n] = kani::any();
+            let mut i = 0;
+            while i < $n {
+                kani::assume(b[i] < 128);
+                i += 1;
+            }
+            // reference acceptor:  [+]? D (D | _)*   (a second plus sign right after the first keeps both, which then fails as a digit)
+            let start = if $n > 0 && b[0] == b'+' && !($n > 1 && b[1] == b'+') { 1 } else { 0 };
+            let empty = start >= $n;
+            let mut ok = !empty && b[start] != b'_';
+            let mut ev = [0u8; 4];
+            let mut en = 0;
+            let mut val: u64 = 0;
+            let mut i = start;
+            while i < $n {
+                if b[i] != b'_' {
+                    let dv = text_digit(b[i]);
+                    if (dv as u32) < $radix {
+                        ev[en] = dv;
+                        en += 1;
+                        val = val * $radix + dv as u64;
+                    } else {
+                        ok = false;
+                    }
+                }
+                i += 1;
+            }
+            let s = unsafe { core::str::from_utf8_unchecked(&b) };
+            unsafe { T_KIND = 0; }
+            let got = <BigUint as Num>::from_str_radix(s, $radix);
+            match got {
+                Err(e) => {
+                    kani::assert(!ok, "VERIF BigUint::from_str_radix rejected a well-formed string");
+                    kani::assert((e.kind == crate::BigIntErrorKind::Empty) == empty, "VERIF BigUint::from_str_radix reports the wrong error kind");
+                }
+                Ok(u) => {
+                    kani::assert(ok, "VERIF BigUint::from_str_radix accepted an ill-formed string");
+                    if !ok {
+                        return;
+                    }
+                    if !vc::symbolic() {
+                        kani::assert(vc::is_canonical(&u) && vc::eq_window(vc::digits(&u), &[val]), "VERIF BigUint::from_str_radix wrong value");
+                        return;
+                    }
+                    let r: u32 = $radix;
+                    let (kind, arg) = if r.is_power_of_two() {
+                        let bits = r.trailing_zeros();
+                        (if 64 % bits == 0 { 1 } else { 2 }, bits)
+                    } else {
+                        (3, r)
+                    };
+                    kani::assert(unsafe { T_KIND } == kind && unsafe { T_ARG } == arg && unsafe { T_N } == en, "VERIF BigUint::from_str_radix: wrong back end / argument / digit count");
+                    let k: usize = kani::any();
+                    kani::assume(k < en);
+                    let want = if kind == 3 { ev[k] } else { ev[en - 1 - k] };
+                    kani::assert(unsafe { T_V }[k] == want, "VERIF BigUint::from_str_radix: digit vector handed to the back end differs from the text");
+                }
+            }
+            if $n > 0 {
+                kani::cover!(ok, "reach: accepted string");
+                kani::cover!(!ok && !empty, "reach: rejected string");
+            }
+        }
+    };
+}
+text_layer_shape!(c06_q_text_n0_r10, 0, 10);
+text_layer_shape!(c06_q_text_n1_r10, 1, 10);
+text_layer_shape!(c06_q_text_n2_r10, 2, 10);
+text_layer_shape!(c06_q_text_n3_r10, 3, 10);
+text_layer_shape!(c06_q_text_n3_r16, 3, 16);
+text_layer_shape!(c06_q_text_n3_r8, 3, 8);
+text_layer_shape!(c06_q_text_n3_r36, 3, 36);
+text_layer_shape!(c06_q_text_n3_r2, 3, 2);
+text_layer_shape!(c06_t_text_n4_r10, 4, 10);
+text_layer_shape!(c06_t_text_n4_r32, 4, 32);
